@@ -113,3 +113,24 @@ def replay_sys(prop, rep):
     for x in bad:
         print("VIOLATION property=%s replay=(given) detail=%s" % (prop, x))
     return 1 if bad else 0
+
+
+def run_loop_order():
+    """The memory order with which the backend thread's loop reads its running flag, taken from the source (the whole-system
+    harness replays that two-line loop: `while (flag.load(order)) _poll(); _exit();`).  Fails if the loop no longer looks like
+    what the replica assumes."""
+    import re
+    src = open(vf.REPO + "/include/quill/backend/BackendWorker.h").read()
+    m = re.search(r"while \(QUILL_LIKELY\(_is_worker_running\.load\(std::memory_order_(\w+)\)\)\)\s*\{\s*// main loop\s*QUILL_TRY \{ _poll\(\); \}", src)
+    tail = re.search(r"// exit\s*QUILL_TRY \{ _exit\(\); \}", src)
+    if not m or not tail:
+        raise vf.HarnessError("BackendWorker::run's loop does not look like `while (_is_worker_running.load(order)) _poll(); _exit();` any more: "
+                              "the replica in engines/wmm/h_queues.cpp (SysHarness::consumer) has to be revisited")
+    return m.group(1)
+
+
+def sys_stop_job(exe, sc, passes, ops, ops2="", deadline=600):
+    args = ["--mode", "sys", "--sc", sc, "--passes", passes, "--extra", 0, "--runloop", run_loop_order(), "--ops", ops, "--deadline", deadline]
+    if ops2:
+        args += ["--ops2", ops2]
+    return (exe, args, deadline + 120)
